@@ -31,7 +31,9 @@ RULE = ('sequences of <=30 operations on 4 DmxBuffers in raw storage plus the <=
         'byte / int / long) / Set and SetRange with a pointer into another buffer (GetRaw()+k) / '
         'SetRangeToValue / SetRange / SetChannel / HTPMerge / Blackout / Reset), copy-assign-destroy-recreate and '
         'self-operations weighted heavily, offsets and lengths from {0,1,size-1,size,size+1,511,512,513,2^32-1} '
-        'relative to the tracked size of the target; all observables compared after every operation; '
+        'relative to the tracked size of the target; all observables compared after every operation, among them operator<< on '
+        'streams carrying format state (hex, oct, showbase, showpos, uppercase, internal, scientific, setw+setfill left/right '
+        'with widths around the text length, a digit-grouping locale): text and stream state after the call; '
         'non-trivial = at least one accepted operation and at least one mutation of a buffer whose block was '
         'shared at that moment; distinct = distinct model output trace')
 ASSUMPTIONS = ['operator new does not fail',
@@ -39,7 +41,9 @@ ASSUMPTIONS = ['operator new does not fail',
                'a caller passing (data, length) owns at least the bytes the call reads (min(length,512) resp. '
                'min(length,512-offset)); the harness passes exact-size heap arrays so ASan sees any over-read',
                'single-threaded use (the class is documented as not thread safe)']
-TRUSTED = ['whole-buffer C++ expressions (assignment from temporaries and by-value returns, std::swap, std::vector element '
+TRUSTED = ['std::operator<<(ostream&, const std::string&) (libstdc++) is modelled, not verified: pads the whole text once to '
+           'width()/fill()/adjustfield, resets width to 0, ignores every other format flag and the numeric locale (Model.pad_text)',
+           'whole-buffer C++ expressions (assignment from temporaries and by-value returns, std::swap, std::vector element '
            'shuffles) are executed as written by the harness and as the sequence of copy constructions / copy assignments / '
            'destructions they mean for a value type by the model driver (props/C02/driver.ml `expand`, mirroring libstdc++ 12); '
            'on a class without move members the two coincide down to reference counts, with move members only the '
@@ -443,7 +447,9 @@ LEVEL_TEXT = ('Coq theorems, for every pool size and every finite sequence of Dm
               'the documented text format, and that destroying every buffer after any history frees every block.  Wave 6: '
               'assignment from a temporary / by-value return, std::swap and container erase are proved to have value semantics '
               'from every aliasing state (c02_assign_from_temporary(_then_write), c02_swap, c02_container_erase) and the harness '
-              'exercises these C++ expressions and a std::vector<DmxBuffer> directly.')
+              'exercises these C++ expressions and a std::vector<DmxBuffer> directly.  Wave 7: the stream operator yields exactly the '
+              'ToString() text as one padded field whatever state the stream carries (c02_stream_text), checked on streams with '
+              'non-default state including the state left behind.')
 LEVEL_NOTE = ('Trusted: Coq kernel, extraction (ExtrOcamlBasic), OCaml/C++ glue, and that the hand-written model equals '
               'common/utils/DmxBuffer.cpp: validated by differential testing after every operation (API observables '
               'and refcount/cow/sharing/heap-block internals, ASan+UBSan build of the working tree), not proved.  '
